@@ -146,6 +146,11 @@ def option_set(draw):
         o["default_str_storage"] = draw(st.sampled_from([33, 80, 255]))
     if draw(st.integers(0, 3)) == 0:
         o["add_standard_prefix"] = False
+    if draw(st.integers(0, 1)) == 0:
+        # a per-name size map over the names the programs use; one map in two is an object the caller keeps and passes to every conversion
+        # (a handful of fixed maps, so that the same map - hence the same kept object - recurs within one history)
+        o["string_configs"] = draw(st.sampled_from([{"AA$": 40}, {"AB$()": 80, "K$": 1}, {"B1$": 200, "C2$()": 40, "XY$": 33}, {"ZZ$": 80, "AA$()": 80, "Q9$": 80, "M$": 80}]))
+        o["share_config"] = draw(st.booleans())
     return o
 
 
@@ -380,6 +385,18 @@ def campaign_history(seed, n, steps, switches=frozenset(), fresh_check=True):
         def convert_same_program_other_options(self, data, opts):
             convs = [s for s in self.steps if s[0] == "conv"]
             s = data.draw(st.sampled_from(convs))
+            self._record(digest(["conv", s[1], opts]), conv_digest(s[1], opts), ["conv", s[1], opts])
+
+        @precondition(lambda self: any(s[0] == "conv" and s[2].get("share_config") for s in self.steps))
+        @rule(data=st.data(), size=st.sampled_from([None, 33, 40, 80, 255]))
+        def convert_again_with_the_kept_config_object_and_another_size(self, data, size):
+            convs = [s for s in self.steps if s[0] == "conv" and s[2].get("share_config")]
+            s = data.draw(st.sampled_from(convs))
+            opts = dict(s[2])
+            if size is None:
+                opts.pop("default_str_storage", None)
+            else:
+                opts["default_str_storage"] = size
             self._record(digest(["conv", s[1], opts]), conv_digest(s[1], opts), ["conv", s[1], opts])
 
         @precondition(lambda self: any(s[0] == "conv" for s in self.steps))
